@@ -8,7 +8,9 @@ use serde::{Deserialize, Serialize};
 use smartcore::algorithm::neighbour::KNNAlgorithmName;
 use smartcore::cluster::dbscan::{DBSCANParameters, DBSCAN};
 use smartcore::linalg::naive::dense_matrix::DenseMatrix;
+use crate::matops::{ft, tf};
 use smartcore::math::distance::{Distance, Distances};
+use smartcore::math::num::RealNumber;
 
 #[derive(Clone, Debug, Serialize, Deserialize)]
 pub struct DbscanCase {
@@ -148,18 +150,18 @@ struct Fitted {
     predictions: Vec<f64>,
 }
 
-fn fit_with<D: Distance<Vec<f64>, f64> + serde::Serialize>(case: &DbscanCase, dist: D, cover: bool) -> Result<Result<Fitted, String>, String> {
-    let x = DenseMatrix::from_2d_vec(&case.data);
-    let q = DenseMatrix::from_2d_vec(&case.queries);
+fn fit_with<T: RealNumber + serde::Serialize, D: Distance<Vec<T>, T> + serde::Serialize>(case: &DbscanCase, data: &[Vec<T>], queries: &[Vec<T>], eps: T, dist: D, cover: bool) -> Result<Result<Fitted, String>, String> {
+    let x = DenseMatrix::from_2d_vec(&data.to_vec());
+    let q = DenseMatrix::from_2d_vec(&queries.to_vec());
     catch(|| {
         let alg = if cover { KNNAlgorithmName::CoverTree } else { KNNAlgorithmName::LinearSearch };
         // builder calls in two orders (a setter that rebuilds from the defaults would lose earlier settings)
-        let params = if case.data.len() % 2 == 0 { DBSCANParameters::default().with_eps(case.eps).with_min_samples(case.min_samples).with_algorithm(alg).with_distance(dist.clone()) } else { DBSCANParameters::default().with_distance(dist.clone()).with_algorithm(alg).with_min_samples(case.min_samples).with_eps(case.eps) };
+        let params = if data.len() % 2 == 0 { DBSCANParameters::default().with_eps(eps).with_min_samples(case.min_samples).with_algorithm(alg).with_distance(dist.clone()) } else { DBSCANParameters::default().with_distance(dist.clone()).with_algorithm(alg).with_min_samples(case.min_samples).with_eps(eps) };
         let m = DBSCAN::fit(&x, params).map_err(|e| format!("fit: {}", e))?;
         let v = serde_json::to_value(&m).map_err(|e| format!("serialise: {}", e))?;
         let labels: Vec<i64> = v["cluster_labels"].as_array().ok_or("no cluster_labels")?.iter().map(|x| x.as_i64().unwrap_or(i64::MIN)).collect();
         let num_classes = v["num_classes"].as_u64().ok_or("no num_classes")? as usize;
-        let predictions = m.predict(&q).map_err(|e| format!("predict: {}", e))?;
+        let predictions: Vec<f64> = m.predict(&q).map_err(|e| format!("predict: {}", e))?.iter().map(|v| ft(*v)).collect();
         Ok(Fitted { labels, num_classes, predictions })
     })
 }
@@ -178,11 +180,35 @@ fn find(uf: &mut Vec<usize>, i: usize) -> usize {
     r
 }
 
-fn dbscan_with<D: Distance<Vec<f64>, f64> + serde::Serialize>(case: &DbscanCase, dist: D, ctx: &mut Ctx) -> Result<(), Fail> {
+/// `pfx` = "dbscan" for f64 and "dbscan-f32" for the single-precision instantiation. In f32 the points are the
+/// generated ones rounded to f32 and eps is the realised f32 distance closest to the generated eps, so that
+/// "eps exactly equal to a distance" survives the change of precision; the reference neighbourhoods use the
+/// library's own distance in the same precision.
+fn dbscan_with<T: RealNumber + serde::Serialize, D: Distance<Vec<T>, T> + serde::Serialize>(case: &DbscanCase, dist: D, ctx: &mut Ctx, pfx: &str) -> Result<(), Fail> {
     let n = case.data.len();
-    let eps = case.eps;
+    let conv = |p: &Pts| -> Vec<Vec<T>> { p.iter().map(|r| r.iter().map(|x| tf::<T>(*x)).collect()).collect() };
+    let data: Vec<Vec<T>> = conv(&case.data);
+    let queries: Vec<Vec<T>> = conv(&case.queries);
+    let mut eps: T = tf::<T>(case.eps);
+    if pfx != "dbscan" {
+        let mut best = f64::INFINITY;
+        for i in 0..n {
+            for j in 0..i {
+                let d = dist.distance(&data[i], &data[j]);
+                if (ft(d) - case.eps).abs() < best && d > T::zero() {
+                    best = (ft(d) - case.eps).abs();
+                    if best <= 1e-6 * case.eps.abs() {
+                        eps = d;
+                    }
+                }
+            }
+        }
+    }
+    if !(eps > T::zero()) {
+        return Ok(());
+    }
     // textbook definition by brute force
-    let nb: Vec<Vec<usize>> = (0..n).map(|i| (0..n).filter(|j| dist.distance(&case.data[i], &case.data[*j]) <= eps).collect()).collect();
+    let nb: Vec<Vec<usize>> = (0..n).map(|i| (0..n).filter(|j| dist.distance(&data[i], &data[*j]) <= eps).collect()).collect();
     let core: Vec<bool> = nb.iter().map(|v| v.len() >= case.min_samples).collect();
     let mut uf: Vec<usize> = (0..n).collect();
     for i in 0..n {
@@ -217,14 +243,15 @@ fn dbscan_with<D: Distance<Vec<f64>, f64> + serde::Serialize>(case: &DbscanCase,
     ctx.label_if(n == 1, "single-point");
     let mut results = vec![];
     for cover in [true, false] {
-        let tag = if cover { "dbscan/cover_tree" } else { "dbscan/linear" };
-        let f = match fit_with(case, dist.clone(), cover) {
-            Err(p) => return fail(format!("{}/panic", tag), format!("n={} eps={} min_samples={}: panicked: {}", n, eps, case.min_samples, p)),
+        let tag = format!("{}/{}", pfx, if cover { "cover_tree" } else { "linear" });
+        let tag = tag.as_str();
+        let f = match fit_with(case, &data, &queries, eps, dist.clone(), cover) {
+            Err(p) => return fail(format!("{}/panic", tag), format!("n={} eps={} min_samples={}: panicked: {}", n, ft(eps), case.min_samples, p)),
             Ok(Err(e)) => return fail(format!("{}/err", tag), format!("valid input rejected: {}", e)),
             Ok(Ok(f)) => f,
         };
         let y = &f.labels;
-        let describe = || format!("data {:?} eps {:e} min_samples {} labels {:?}", case.data, eps, case.min_samples, y);
+        let describe = || format!("data {:?} eps {:e} min_samples {} labels {:?}", case.data, ft(eps), case.min_samples, y);
         ensure!(y.len() == n, format!("{}/len", tag), "{} labels for {} points", y.len(), n);
         ensure!(f.num_classes == nclusters, format!("{}/num-classes", tag), "num_classes = {}, the definition gives {} clusters; {}", f.num_classes, nclusters, describe());
         // labels are exactly 0..c-1 (and -1)
@@ -258,11 +285,11 @@ fn dbscan_with<D: Distance<Vec<f64>, f64> + serde::Serialize>(case: &DbscanCase,
             ensure!(y[i] == -1, format!("{}/noise-labelled", tag), "point {} has no core point within eps but is labelled {}; {}", i, y[i], describe());
         }
         // predict: plurality among the training points within eps
-        for (qi, q) in case.queries.iter().enumerate() {
+        for (qi, q) in queries.iter().enumerate() {
             let mut votes = vec![0usize; nclusters + 1];
             let mut any = false;
             for j in 0..n {
-                if dist.distance(q, &case.data[j]) <= eps {
+                if dist.distance(q, &data[j]) <= eps {
                     any = true;
                     if y[j] < 0 {
                         votes[nclusters] += 1;
@@ -273,12 +300,12 @@ fn dbscan_with<D: Distance<Vec<f64>, f64> + serde::Serialize>(case: &DbscanCase,
             }
             let got = f.predictions[qi];
             if !any {
-                ensure!(got == -1.0, format!("{}/predict-no-neighbours", tag), "query {:?} has no training point within eps = {:e} but is assigned cluster {}", q, eps, got);
+                ensure!(got == -1.0, format!("{}/predict-no-neighbours", tag), "query {:?} has no training point within eps = {:e} but is assigned cluster {}", case.queries[qi], ft(eps), got);
             } else {
                 let mx = *votes.iter().max().unwrap();
                 let b = if got == -1.0 { nclusters } else { got as usize };
                 ensure!(got == -1.0 || (got >= 0.0 && got.fract() == 0.0 && (got as usize) < nclusters), format!("{}/predict-range", tag), "predicted label {}", got);
-                ensure!(votes[b] == mx, format!("{}/predict-plurality", tag), "query {:?}: predicted {} but the votes within eps are {:?} (last bucket = noise)", q, got, votes);
+                ensure!(votes[b] == mx, format!("{}/predict-plurality", tag), "query {:?}: predicted {} but the votes within eps are {:?} (last bucket = noise)", case.queries[qi], got, votes);
             }
         }
         results.push(f);
@@ -286,10 +313,10 @@ fn dbscan_with<D: Distance<Vec<f64>, f64> + serde::Serialize>(case: &DbscanCase,
     // backend independence: core labels up to renaming, identical noise sets
     let (a, b) = (&results[0].labels, &results[1].labels);
     for i in 0..n {
-        ensure!((a[i] == -1) == (b[i] == -1), "dbscan/backends/noise-set", "point {} is noise with one backend only: cover tree {:?}, linear {:?}", i, a, b);
+        ensure!((a[i] == -1) == (b[i] == -1), format!("{}/backends/noise-set", pfx), "point {} is noise with one backend only: cover tree {:?}, linear {:?}", i, a, b);
         for j in 0..i {
             if core[i] && core[j] {
-                ensure!((a[i] == a[j]) == (b[i] == b[j]), "dbscan/backends/core-partition", "core points {} {} grouped differently: cover tree {:?}, linear {:?}", i, j, a, b);
+                ensure!((a[i] == a[j]) == (b[i] == b[j]), format!("{}/backends/core-partition", pfx), "core points {} {} grouped differently: cover tree {:?}, linear {:?}", i, j, a, b);
             }
         }
     }
@@ -300,8 +327,23 @@ pub fn check_dbscan(case: &DbscanCase, ctx: &mut Ctx) -> Result<(), Fail> {
     ctx.label(format!("class:{}", case.class));
     ctx.label(format!("metric:{:?}", case.metric));
     match case.metric {
-        Metric::Manhattan => dbscan_with(case, Distances::manhattan(), ctx),
-        _ => dbscan_with(case, Distances::euclidian(), ctx),
+        Metric::Manhattan => dbscan_with::<f64, _>(case, Distances::manhattan(), ctx, "dbscan"),
+        _ => dbscan_with::<f64, _>(case, Distances::euclidian(), ctx, "dbscan"),
+    }
+}
+
+/// The same check on DBSCAN<f32>. Every other case is multiplied by 0.1 first, so that lattice coordinates
+/// are not exactly representable and equal distances arise from rounded operands.
+pub fn check_dbscan_f32(case: &DbscanCase, ctx: &mut Ctx) -> Result<(), Fail> {
+    ctx.label(format!("class:{}", case.class));
+    ctx.label(format!("metric:{:?}", case.metric));
+    let tenth = case.data.len() % 2 == 1;
+    ctx.label_if(tenth, "scaled-by-0.1");
+    let sc = |p: &Pts| -> Pts { p.iter().map(|r| r.iter().map(|x| if tenth { x * 0.1 } else { *x }).collect()).collect() };
+    let c = DbscanCase { class: case.class.clone(), metric: case.metric, data: sc(&case.data), eps: if tenth { case.eps * 0.1 } else { case.eps }, min_samples: case.min_samples, queries: sc(&case.queries) };
+    match c.metric {
+        Metric::Manhattan => dbscan_with::<f32, _>(&c, Distances::manhattan(), ctx, "dbscan-f32"),
+        _ => dbscan_with::<f32, _>(&c, Distances::euclidian(), ctx, "dbscan-f32"),
     }
 }
 
@@ -334,6 +376,6 @@ pub fn property() -> Property {
             "neighbourhoods of the reference are computed with the library's own Distance::distance (metrics are pinned by C17)".into(),
             "a border point may carry the label of any core point within eps; predict may return any bucket with the maximal vote (noise bucket = -1)".into(),
         ],
-        subs: vec![sub_enum("dbscan", (2500, 60000), strat_dbscan, check_dbscan, enum_dbscan), sub("invalid_parameters", (200, 2000), strat_bad, check_bad)],
+        subs: vec![sub_enum("dbscan", (2500, 60000), strat_dbscan, check_dbscan, enum_dbscan), sub_enum("dbscan_f32", (1000, 30000), strat_dbscan, check_dbscan_f32, enum_dbscan), sub("invalid_parameters", (200, 2000), strat_bad, check_bad)],
     }
 }
